@@ -146,8 +146,10 @@ def impl_main(payload):
             if n == 0:
                 if not 0 <= p1 < cfg["D"]:
                     errs.append("row %d loads variable %d, data has %d columns" % (i, p1, cfg["D"]))
-            elif n not in cfg["ops"]:
-                errs.append("row %d uses operator %d, enabled %r" % (i, n, cfg["ops"]))
+            elif n not in cfg["ops"] or (cfg["weights"] is not None and
+                                         not any(w > 0 for o, w in zip(cfg["ops"], cfg["weights"]) if o == n)):
+                # an operator added with weight 0 is switched off: nothing may introduce it
+                errs.append("row %d uses operator %d, enabled %r with weights %r" % (i, n, cfg["ops"], cfg["weights"]))
             elif not (0 <= p1 < i and 0 <= p2 < i):
                 errs.append("row %d references rows %d, %d" % (i, p1, p2))
         return errs
